@@ -184,6 +184,21 @@ Theorem pending_notifications_never_dropped : forall o s l,
    (l = LRun BrAsync /\ st_pc s = PSelect /\ exists e, st_async s = e :: st_async s' /\ st_pc s' = PFinal false)).
 Proof. exact (fun o s l => conj (watch_fifo_l o s l) (async_fifo_l o s l)). Qed.
 
+(* ---- every registered provider, exactly once --------------------------------------------------------- *)
+(* At the provider level (Model.expand: the resolver's loops over a topology of n_uri configuration
+   URIs served by provider 0, an optional provider used for one ${...} expansion only and an optional
+   provider that serves nothing): no registered provider is ever shut down twice; after a stopped
+   run EVERY registered provider — whether it served several URIs, only an expansion, or nothing —
+   has been shut down exactly once and nothing else has; a run that ended by a bring-up / retire
+   failure shut none down. *)
+Theorem each_provider_shut_down_exactly_once : forall t o ls,
+  (forall p, pcount (is_pshut p) (expand t (snd (run o init ls))) <= 1) /\
+  (forall s log, run o init ls = (s, log) -> st_pc s = PDone DStopped ->
+     forall p, pcount (is_pshut p) (expand t log) = if p <? 1 + n_aux t then 1 else 0) /\
+  (forall s log k, run o init ls = (s, log) -> st_pc s = PDone k -> k <> DStopped ->
+     forall p, pcount (is_pshut p) (expand t log) = 0).
+Proof. exact each_provider_once_l. Qed.
+
 Print Assumptions phase_order.
 Print Assumptions phase_order_in_words.
 Print Assumptions one_live_service.
@@ -202,3 +217,4 @@ Print Assumptions reload_failure_not_closed.
 Print Assumptions shutdown_idempotent_safe.
 Print Assumptions recover_guard_is_exercised.
 Print Assumptions pending_notifications_never_dropped.
+Print Assumptions each_provider_shut_down_exactly_once.
